@@ -34,6 +34,9 @@ class Scene:
         self.apermask_method = 'correct'
         self.kinds = []
         self.info = {}
+        self.layout = {}         # array name -> 'F' | 'strided' | 'bigendian' | 'float32' (how the library sees it)
+        self.callform = {}       # argument name -> form tag (how scalar / sequence arguments are passed)
+        self.axes = []           # generic axes exercised by this scene (evidence counters)
 
     def copy(self):
         s = Scene()
@@ -45,6 +48,12 @@ class Scene:
             setattr(s, k, v)
         return s
 
+    def scale(self, name, factor):
+        a = getattr(self, name)
+        if a is not None and a.dtype.kind == 'f':
+            with np.errstate(all='ignore'):
+                setattr(self, name, a * factor)
+
     def describe(self):
         d = dict(shape=list(self.shape), nlabels=len(self.labels), labels=[int(x) for x in self.labels],
                  kinds=list(self.kinds), conv=self.conv is not None, error=self.error is not None,
@@ -52,6 +61,12 @@ class Scene:
                  unit=None if self.unit is None else str(self.unit), wcs=self.wcs is not None,
                  localbkg_width=int(self.localbkg_width), dtype=str(self.data.dtype))
         d.update(self.info)
+        if self.layout:
+            d['layout'] = dict(self.layout)
+        if self.callform:
+            d['callform'] = dict(self.callform)
+        if self.axes:
+            d['axes'] = list(self.axes)
         return d
 
     def arrays(self):
@@ -216,6 +231,23 @@ def gen_data(rng, shape, seg, labels, mode):
         return np.full(shape, float(rng.integers(1, 5)))
     if mode == 'random':
         return rng.normal(0, 10, shape) ** 2 * rng.choice([1.0, 1e-3, 1e4])
+    if mode == 'oversub':
+        # background over-subtracted: faint and bright sources minus a constant -> negative totals, zero Kron
+        # radii and flux-fraction radii without a solution at arbitrary rows
+        yy, xx = np.indices(shape)
+        img = np.zeros(shape)
+        for lab in labels:
+            ys, xs = np.nonzero(seg == lab)
+            k = int(rng.integers(0, len(ys)))
+            amp = float(rng.choice([0.5, 3.0, 20.0, 60.0, 200.0]))
+            sy, sx = rng.uniform(1.0, 4), rng.uniform(1.0, 4)
+            img += amp * np.exp(-0.5 * (((yy - ys[k]) / sy) ** 2 + ((xx - xs[k]) / sx) ** 2))
+        return img + rng.normal(0, 0.3, shape) - float(rng.uniform(3.0, 12.0))
+    if mode == 'undetected':
+        # a band in which the sources are not detected: smooth low-amplitude pattern around zero
+        yy, xx = np.indices(shape)
+        return (3.0 * np.sin(rng.uniform(0.2, 0.5) * xx + rng.uniform(0, 6)) * np.cos(rng.uniform(0.2, 0.4) * yy - 1.0)
+                + rng.normal(0, 0.2, shape))
     img = _sources_image(rng, shape, seg, labels)
     if mode == 'smooth':
         return img + rng.uniform(0.0, 2.0)
@@ -291,22 +323,61 @@ def sprinkle_nonfinite(rng, arr, where, frac, kinds=(np.nan, np.inf, -np.inf)):
 # ----------------------------------------------------------------------
 # SourceCatalog construction from a scene
 # ----------------------------------------------------------------------
+def relayout(a, how):
+    """Same values, different memory representation. None / 'C' -> contiguous copy."""
+    if a is None:
+        return None
+    if how == 'F':
+        return np.asfortranarray(a)
+    if how == 'strided':
+        big = np.zeros((2 * a.shape[0] + 1, 2 * a.shape[1] + 3), dtype=a.dtype)
+        view = big[1::2, 2:-1:2]
+        view[...] = a
+        return view                                   # non-contiguous, offset view
+    if how == 'bigendian' and a.dtype.kind in 'fiu' and a.dtype.itemsize > 1:
+        return a.astype(a.dtype.newbyteorder('>'))
+    if how == 'float32' and a.dtype.kind == 'f':
+        return a.astype(np.float32)                   # scene values were rounded to float32 beforehand
+    return a.copy()
+
+
+def callform(value, tag):
+    """Scalar / sequence argument in an equivalent call form."""
+    if tag == 'npint':
+        return np.int64(value)
+    if tag == 'float':
+        return float(value)
+    if tag == 'np0d':
+        return np.array(value)
+    if tag == 'list':
+        return list(value)
+    if tag == 'array':
+        return np.array(value, dtype=float)
+    return value
+
+
 def catalog_kwargs(sc):
-    """Fresh copies of everything, wrapped in the scene's unit where the API wants Quantities."""
-    def q(a):
+    """Fresh copies of everything (in the scene's memory layout), wrapped in the scene's unit where the API
+    wants Quantities (``<<`` keeps the layout)."""
+    def q(a, name):
         if a is None:
             return None
-        a = a.copy()
-        return a if sc.unit is None else a * sc.unit
-    kw = dict(convolved_data=q(sc.conv), error=q(sc.error),
-              mask=None if sc.mask is None else sc.mask.copy(),
-              background=q(sc.background), wcs=sc.wcs, localbkg_width=sc.localbkg_width,
-              apermask_method=sc.apermask_method, kron_params=sc.kron_params)
-    return q(sc.data), kw
+        a = relayout(a, sc.layout.get(name))
+        return a if sc.unit is None else a << sc.unit
+    kw = dict(convolved_data=q(sc.conv, 'conv'), error=q(sc.error, 'error'),
+              mask=relayout(sc.mask, sc.layout.get('mask')),
+              background=q(sc.background, 'background'), wcs=sc.wcs,
+              localbkg_width=callform(sc.localbkg_width, sc.callform.get('localbkg_width')),
+              apermask_method=sc.apermask_method,
+              kron_params=callform(sc.kron_params, sc.callform.get('kron_params')))
+    return q(sc.data, 'data'), kw
 
 
 def make_catalog(sc, detection_cat=None):
     from photutils.segmentation import SegmentationImage, SourceCatalog
     data, kw = catalog_kwargs(sc)
-    segm = SegmentationImage(sc.seg.copy())
+    seg = relayout(sc.seg, sc.layout.get('seg'))
+    if sc.layout.get('seg_dtype'):
+        seg = seg.astype(sc.layout['seg_dtype'])
+    segm = SegmentationImage(seg)
     return SourceCatalog(data, segm, detection_cat=detection_cat, **kw)
